@@ -84,6 +84,37 @@ Theorem c14_find_git_repo_pinned_refuted :
 Proof. exact find_git_repo_pinned_refuted. Qed.
 Print Assumptions c14_find_git_repo_pinned_refuted.
 
+(* ---- symbolic links.  The model (like the code) works on paths as spelled; [resolve] is realpath, an oracle.
+        The gate protects the FILES git reports as far as the spellings it compares are faithful
+        ([faithful]: distinct spellings, distinct files), which holds when the only links lie above the
+        work tree (every compared path then starts with the same spelled root). ---- *)
+Theorem c14_guard_sound_resolved :
+  forall (resolve : str -> str) cwd root status modified deleted,
+  git_guard cwd (RepoAt root) status modified deleted = GProceed ->
+  faithful resolve ((modified ++ deleted) ++ changed_abs cwd root status) ->
+  ~ touches_dirty_resolved resolve (fp_abs cwd root) status (modified ++ deleted).
+Proof. exact guard_sound_resolved. Qed.
+Print Assumptions c14_guard_sound_resolved.
+
+(* resolving ONE side only (the work-tree root, not the provider's paths) opens the gate for a dirty file
+   that the spelled comparison stops: repository /T reached through the link /L *)
+Theorem c14_guard_root_resolved_refuted :
+  exists resolve cwd root status modified deleted,
+    git_guard_root_resolved resolve cwd (RepoAt root) status modified deleted = GProceed
+    /\ touches_dirty_resolved resolve (fp_abs cwd root) status (modified ++ deleted)
+    /\ git_guard cwd (RepoAt root) status modified deleted = GRefuse.
+Proof. exact guard_root_resolved_refuted. Qed.
+Print Assumptions c14_guard_root_resolved_refuted.
+
+(* without faithfulness the gate of the tree as it is does let a dirty file through: a link inside the
+   work tree (open finding) *)
+Theorem c14_guard_unfaithful_refuted :
+  exists resolve cwd root status modified deleted,
+    git_guard cwd (RepoAt root) status modified deleted = GProceed
+    /\ touches_dirty_resolved resolve (fp_abs cwd root) status (modified ++ deleted).
+Proof. exact guard_unfaithful_refuted. Qed.
+Print Assumptions c14_guard_unfaithful_refuted.
+
 (* ---- the hypotheses are satisfiable by non-trivial values ---- *)
 From Regal Require Import Base.StrLit.
 From Coq Require Import String.
@@ -109,3 +140,10 @@ Example c14_guard_nonvacuous :
         {| gv_repo := RepoAt (lit ".."); gv_status := [lit "other.rego"] |} [lit "/R"] ex_tree
         (LDone (ex_prov true) new_report) [] [lit "/R/pol/x.rego"]) = OutDone.
 Proof. cbv zeta. repeat split; vm_compute; reflexivity. Qed.
+
+(* [faithful] is satisfiable with a resolve that is not the identity: everything below the link /L *)
+Example c14_faithful_nonvacuous :
+  faithful Proofs.GitGuard.l_resolve [lit "/L/x"; lit "/L/y"] /\ Proofs.GitGuard.l_resolve (lit "/L/x") = lit "/T/x".
+Proof.
+  split; [|reflexivity]. intros a b [<-|[<-|[]]] [<-|[<-|[]]]; vm_compute; intros H; try reflexivity; discriminate.
+Qed.
